@@ -66,6 +66,8 @@ N_qd9 == <<"q", ".", "9">>
 N_pmd5 == <<"p", "-", ".", "5">>
 N_p5dot == <<"p", "5", ".">>
 N_p1em5 == <<"p", "1", "e", "-", "0", "5">>          \* exponent notation, as "%g" writes small thresholds
+N_q0 == <<"q", "0">>                       \* the end points are quantile levels too
+N_q1 == <<"q", "1">>
 N_p0 == <<"p", "0">>
 N_p5 == <<"p", "5">>
 N_p10 == <<"p", "1", "0">>
